@@ -75,21 +75,31 @@ def truncInt (x : α) : Int :=
   if x < 0 then -(HasFloorInt.floorInt (-x)) else HasFloorInt.floorInt x
 
 /-- `x % m` on floats (`fmod`): `x − trunc(x/m)·m`, computed exactly; the result has the sign of
-`x`. (IEEE `fmod` is exact, so this is also the `f32` value when `x` and `m` are.) -/
-def fmod (x m : α) : α := x - ((truncInt (x / m) : Int) : α) * m
+`x`. (IEEE `fmod` is exact, so this is also the `f32` value when `x` and `m` are.)
+`x % 0.0` is NaN: `none`. No value is ever computed from a division by zero. -/
+def fmod (x m : α) : Option α :=
+  if m < 0 ∨ 0 < m then some (x - ((truncInt (x / m) : Int) : α) * m) else none
 
 def absS (m : α) : α := if m < 0 then -m else m
 
-/-- std `f32::rem_euclid`: `let r = self % rhs; if r < 0.0 { r + rhs.abs() } else { r }`. -/
-def remEuclid (x m : α) : α :=
-  let r := fmod x m
-  if r < 0 then r + absS m else r
+/-- `f32::rem_euclid`: `let r = self % rhs; if r < 0.0 { r + rhs.abs() } else { r }` – std's
+algorithm, and since /repo e9e07c1 also `float::fallback::rem_euclid` (float.rs:131-136, used by
+the no_std and libm backends). NaN (`none`) for a zero modulus. -/
+def remEuclid (x m : α) : Option α :=
+  match fmod x m with
+  | some r => some (if r < 0 then r + absS m else r)
+  | none => none
 
-/-- angle.rs:261-263 `wrap`: `min + rem_euclid(self − min, max − min)`. -/
-def wrap (a mn mx : α) : α := mn + remEuclid (a - mn) (mx - mn)
+/-- angle.rs:261-263 `wrap`: `min + rem_euclid(self − min, max − min)`. `none` = NaN, which is
+what the code returns for the degenerate interval `max = min`. A reversed interval (`max < min`)
+is not rejected: the modulus enters through `abs`, see `Props.C18.wrap_reversed`. -/
+def wrap (a mn mx : α) : Option α :=
+  match remEuclid (a - mn) (mx - mn) with
+  | some r => some (mn + r)
+  | none => none
 
-/-- angle.rs:530-535 `Rem for Angle`. -/
-def arem (a b : α) : α := fmod a b
+/-- angle.rs:530-535 `Rem for Angle` (`none` = NaN for a zero divisor). -/
+def arem (a b : α) : Option α := fmod a b
 end Rem
 
 section Coords
